@@ -759,6 +759,8 @@ class ProgGen:
             return self.gen_callstmt(d)
         if c == 'if':
             cond = self.gen_truthy(d) if self.chance(0.3) else self.gen_bool(d)
+            if self.chance(0.06):
+                cond = self.const_cond(r.random() < 0.5)
             then = self.gen_block(depth - 1, r.randrange(1, 4), d)
             els = self.gen_block(depth - 1, r.randrange(1, 3), d) if self.chance(0.5) else None
             return [('if', cond, then, els)]
@@ -780,6 +782,16 @@ class ProgGen:
                 cond = ('bin', '>', ('var', i), ('int', 0))
                 step = ('aug', '-', ('var', i), ('int', 1))
             return [('for', init, cond, step, body)]
+        if c == 'while' and self.chance(0.12):
+            # a loop whose condition is a compile-time false: the body never runs, what follows does
+            self.loop_depth += 1
+            body = self.gen_block(depth - 1, r.randrange(1, 3), d, loop_exit=True)
+            self.loop_depth -= 1
+            cond = self.const_cond(False)
+            if self.chance(0.3):
+                i = self.name('i')
+                return [('for', ('decl', 'int', i, ('int', 0), False), cond, ('aug', '+', ('var', i), ('int', 1)), body)]
+            return [('while', cond, body)]
         if c == 'while':
             n = self.name('n')
             k = r.randrange(0, 5)
@@ -791,6 +803,19 @@ class ProgGen:
             return [('decl', 'int', n, ('int', k), False),
                     ('while', ('bin', '>', ('var', n), ('int', 0)), body)]
         raise AssertionError(c)
+
+    def const_cond(self, val):
+        r = self.rnd
+        c = r.randrange(5)
+        if c == 0:
+            return ('bool', val)
+        if c == 1:
+            return ('bin', '<', ('int', 1), ('int', 2)) if val else ('bin', '>', ('int', 1), ('int', 2))
+        if c == 2:
+            return ('un', 'not', ('bool', not val))
+        if c == 3:
+            return ('bin', '==', ('int', 3), ('int', 3 if val else 4))
+        return ('is', ('int', 5 if val else 0), 'bool')
 
     def gen_block(self, depth, nstmts, d, loop_exit=False, prefix=(), final=(), keep_scope=False):
         self.scopes.append({})
